@@ -338,6 +338,121 @@ def extension_geometry(facts, cls, res):
                               "for %s the extended width factor is %s but the extended tree height %s places the original box at level height-2, i.e. factor %s" % (name, got, height, sympy.simplify(exp)))
 
 
+# ---------------------------------------------------------------------------------------------- C10.5 shift decision = shift values
+def shift_agreement(facts, res):
+    """The kernels ask NeedToShift() whether a neighbour leaf is reached across the box and, only if so, displace its particles by
+    GetShiftCoef().  Both must be the same decision: NeedToShift is true exactly when some dimension gets a non-zero coefficient.
+    Decided structurally: the per-dimension conditions under which a coefficient is non-zero (one loop over [0,Dim), every
+    iteration assigns its slot) are the only conditions under which NeedToShift answers yes, its loop covers all dimensions, and it
+    has no other way of answering no."""
+    R = "C10.5.shift-decision"
+    fns = {}
+    for q in ("NeedToShift", "GetShiftCoef"):
+        c = [g for g in facts.functions if g["name"] == q and "TbfPeriodicShifter" in g["qname"] and not g.get("inst") and tbf.body(g) is not None]
+        if len(c) != 1:
+            raise AnalysisBroken("TbfPeriodicShifter::Neighbor::%s: %d definitions" % (q, len(c)))
+        fns[q] = c[0]
+    g = fns["GetShiftCoef"]
+    gm = stages.FnModel(facts, g)
+    gl = [l for l in walk(gm.body) if l.get("k") == "ForStmt"]
+    if len(gl) != 1:
+        raise AnalysisBroken("GetShiftCoef: %d loops (1 confirmed by reading)" % len(gl))
+    lo, hi, d = gm.loop_interval(gl[0]) if "&&" not in facts.ntext(gl[0]["c"][1]) else (None, None, None)
+    # per-dimension chain: condition -> value assigned to the slot of this dimension
+    chain = []
+
+    def collect(st, conds):
+        st_ = st
+        if st_ is None:
+            return
+        if st_.get("k") == "CompoundStmt":
+            for c_ in kids(st_):
+                collect(c_, conds)
+            return
+        if st_.get("k") == "IfStmt":
+            c0 = gm.cond_origin(st_["c"][0])
+            collect(st_["c"][1], conds + [c0])
+            if len(st_["c"]) > 2 and st_["c"][2] is not None:
+                collect(st_["c"][2], conds + ["!" + c0])
+            else:
+                chain.append((conds + ["!" + c0], None, st_))
+            return
+        if st_.get("k") == "BinaryOperator" and st_.get("op") == "=":
+            l = strip(kids(st_)[0])
+            if l.get("k") in ("ArraySubscriptExpr", "CXXOperatorCallExpr") and gm.origin(kids(l)[-1]) == "loopvar":
+                chain.append((conds, gm.origin(kids(st_)[1]), st_))
+    collect(gl[0]["c"][3], [])
+    pos = [(c, v, n_) for c, v, n_ in chain if v not in (None, "0")]
+    zero = [(c, v, n_) for c, v, n_ in chain if v == "0"]
+    unassigned = [(c, v, n_) for c, v, n_ in chain if v is None]
+    res.instance(R, "GetShiftCoef", facts.loc(gl[0]), "non-zero under %s; zero under %d path(s); unassigned paths %d" % ([c[-1] for c, _v, _n in pos], len(zero), len(unassigned)))
+    fpath = tbf.rel(facts.path_of(g))
+    if unassigned:
+        res.violation(R, fpath, g["qname"], "slot-unassigned", unassigned[0][2]["l"][1], "some path of the per-dimension loop of GetShiftCoef leaves the coefficient of its dimension unassigned")
+    cond_txt = gm.cond_origin(gl[0]["c"][1]).replace(" ", "")
+    if not re.fullmatch(r"(\(!false&&)?\(?loopvar<global:Dim\)?\)?", cond_txt):
+        res.violation(R, fpath, g["qname"], "all-dimensions", gl[0]["l"][1], "the loop of GetShiftCoef runs while `%s`: it can stop before every dimension has its coefficient" % cond_txt)
+    if len(pos) != 2:
+        raise AnalysisBroken("GetShiftCoef: %d non-zero branches (2 confirmed by reading: below 0, at or above the box limit)" % len(pos))
+    nz = set(c[-1] for c, _v, _n in pos)
+    # sign convention: a neighbour reached below coordinate 0 lies one box width LOWER (-W), beyond the limit one box width HIGHER (+W)
+    for c, v, n_ in pos:
+        below = c[-1].endswith("<0)")
+        want_neg = below
+        is_neg = v.startswith("-") or v.startswith("(-")
+        if want_neg != is_neg:
+            res.violation(R, fpath, g["qname"], "shift-sign", n_["l"][1], "under `%s` the coefficient is `%s`: an image reached %s is displaced by %s one box width" % (c[-1], v, "below coordinate 0" if below else "beyond the box limit", "minus" if below else "plus"))
+        if "getBoxWidths()[loopvar]" not in v:
+            res.violation(R, fpath, g["qname"], "shift-width", n_["l"][1], "the coefficient `%s` is not the box width of the dimension being decided" % v)
+    # ---- NeedToShift
+    n = fns["NeedToShift"]
+    nm = stages.FnModel(facts, n)
+    npath = tbf.rel(facts.path_of(n))
+    loops = [l for l in walk(nm.body) if l.get("k") == "ForStmt"]
+    yes = []      # (conditions, node) under which the answer becomes yes
+    flags = set()
+    for x in walk(nm.body):
+        if x.get("k") == "BinaryOperator" and x.get("op") == "=" and facts.ntext(kids(x)[1]) == "true" and strip(kids(x)[0]).get("k") == "DeclRefExpr":
+            flags.add(strip(kids(x)[0])["did"])
+            yes.append(x)
+        if x.get("k") == "ReturnStmt" and kids(x) and facts.ntext(kids(x)[0]) == "true":
+            yes.append(x)
+    rets = [x for x in walk(nm.body) if x.get("k") == "ReturnStmt" and kids(x)]
+    ycond = set()
+    for y in yes:
+        ifs = [a for a in tbf.ancestors(y) if a.get("k") == "IfStmt"]
+        fl = [a for a in tbf.ancestors(y) if a.get("k") == "ForStmt"]
+        if not ifs or len(fl) != 1:
+            res.violation(R, npath, n["qname"], "yes-unconditional", y["l"][1], "NeedToShift answers yes outside a per-dimension test")
+            continue
+        c0 = nm.cond_origin(ifs[0]["c"][0])
+        # else-if chains: the enclosing ifs contribute their negation, the innermost its condition
+        ycond.add(c0)
+    res.instance(R, "NeedToShift", facts.loc(n), "answers yes under %s" % sorted(ycond))
+    if ycond != nz:
+        res.violation(R, npath, n["qname"], "yes-conditions", n["l"][1], "NeedToShift answers yes under %s but a coefficient is non-zero under %s" % (sorted(ycond), sorted(nz)))
+    # the yes-loop covers every dimension (it may stop early only once the answer is yes)
+    yl = [l for l in loops if any(any(a is l for a in tbf.ancestors(y)) for y in yes)]
+    if len(yl) != 1:
+        raise AnalysisBroken("NeedToShift: the loop that decides was not identified")
+    ct = nm.cond_origin(yl[0]["c"][1]).replace(" ", "")
+    if not re.fullmatch(r"(\(!mutable:\w+&&)?\(?loopvar<global:Dim\)?\)?", ct):
+        res.violation(R, npath, n["qname"], "all-dimensions", yl[0]["l"][1], "the deciding loop of NeedToShift runs while `%s`: a dimension that needs a shift can be skipped" % ct)
+    # every way of answering no: the fall-through after the deciding loop; any other `return false` / `return flag` before it cannot know about the remaining dimensions
+    for r in rets:
+        t = facts.ntext(kids(r)[0])
+        if t == "true":
+            continue
+        after = r["l"][1] > yl[0]["l"][1] and not any(a is yl[0] for a in tbf.ancestors(r)) and not [a for a in tbf.ancestors(r) if a.get("k") in ("IfStmt", "ForStmt", "WhileStmt")]
+        is_flag = strip(kids(r)[0]).get("did") in flags
+        if after and (t == "false" or is_flag):
+            continue
+        guards = [nm.cond_origin(a["c"][0]) for a in tbf.ancestors(r) if a.get("k") == "IfStmt"]
+        res.violation(R, npath, n["qname"], "early-no@%d" % r["l"][1], r["l"][1],
+                      "NeedToShift answers `%s` %s before every dimension has been tested against %s: a leaf on a face of the box whose neighbour lies across another face is told that no shift is needed" % (
+                          t, ("under `%s`" % guards[0][:90]) if guards else "unconditionally", sorted(nz)))
+
+
 def run(res, tier):
     facts = tbf.scan("core")
     res.units.append("umbrella TU 'core': TbfAlgorithmPeriodicTopTree, TbfAlgorithmPeriodicTopTreeTsm, TbfMortonSpaceIndex::getNbInteractionsPerCell")
@@ -345,6 +460,8 @@ def run(res, tier):
     res.rule("C10.2 (window width)^Dim - (core)^Dim == declared extent of the position array for every transfer window")
     res.rule("C10.4 extended box width = original width x 2^(extended tree height - 2), as a multiplicative update, on every branch")
     res.rule("C10.3 the single-tree and target/source top trees agree on formulas, windows and virtual-level loops")
+    res.rule("C10.5 the shift decision (NeedToShift) is true exactly under the per-dimension conditions that give a non-zero shift coefficient (GetShiftCoef), both cover all dimensions, -W below 0 / +W beyond the limit")
+    shift_agreement(facts, res)
     morton_nb = morton_interactions(facts)
     res.instance("C10.2.window-extent", "getNbInteractionsPerCell", "src/spacial/tbfmortonspaceindex.hpp", "%d^Dim - %d^Dim" % morton_nb)
     summ = {}
